@@ -11,7 +11,7 @@
 
    [pops (log s)] lists the dequeued items, NEWEST FIRST; in
    [ForallOrdPairs (fun b a => ...)] b is dequeued later than a. *)
-From RxVerif Require Import Base.Prelude Core.VTime Core.VTimeFacts Core.VTimeNested.
+From RxVerif Require Import Base.Prelude Core.VTime Core.VTimeFacts Core.VTimeNested Core.VTAdvance.
 From Coq Require Import Sorting.Sorted.
 
 (* the k-th dequeued item carries r_idx = k *)
@@ -94,6 +94,26 @@ Theorem C28_advance_to : forall c fuel c0 h sl fuel' t,
              calm_q sl (queue s') /\ new_pops_ok s s' t.
 Proof. exact hist_advance_to. Qed.
 Print Assumptions C28_advance_to.
+
+(* ... and it is COMPLETE: every pending item due at or before t has been dequeued
+   when advance_to returns (with new_pops_ok: it dequeued exactly the pending items due
+   <= t and what those scheduled for <= t; "was run unless cancelled" is
+   C28_skipped_only_if_cancelled) *)
+Theorem C28_advance_to_complete : forall c fuel c0 h sl fuel' t,
+  let s := state_of (run c fuel (init c0) h) in
+  enabled s = false -> clock s < t -> calm_q sl (queue s) -> (qsize (queue s) <= fuel')%nat ->
+  exists s', advance_to fuel' s t = Finished s' /\
+             forall it, In it (queue s) -> i_due it <= t -> In (i_id it) (map r_id (pops (log s'))).
+Proof. exact hist_advance_to_complete. Qed.
+Print Assumptions C28_advance_to_complete.
+
+(* advance_to NEVER dequeues an item due after its target and never spin-bumps: in ANY
+   state (reachable or not; pending actions may stop the scheduler, raise, be periodic),
+   for any target and fuel, whatever the outcome (returned, raised, out of fuel) *)
+Theorem C28_advance_to_only_due : forall fuel s t,
+  new_pops_ok s (ostate (advance_to fuel s t)) t.
+Proof. exact advance_to_only_due. Qed.
+Print Assumptions C28_advance_to_only_due.
 
 (* REFUTED clause: advance_to(now) does not run the items due now; it is a no-op *)
 Theorem C28_advance_to_now_is_noop : forall fuel s, advance_to fuel s (clock s) = Finished s.
@@ -200,3 +220,29 @@ Example C28_witness_nested :
   | [] => False
   end.
 Proof. vm_compute. repeat split; reflexivity. Qed.
+
+(* C28_advance_to_only_due on a state with a periodic subscription, a raising and a
+   stopping action pending (outside C28_advance_to): advance_to(10) raises at 4, only
+   items due <= 10 were dequeued *)
+Example C28_witness_only_due :
+  let s := state_of (run (Cfg Numeric false) 10 (init 0)
+             [TDo (SPeriodic 3 ([], PNext [] 0%N 0) 0); TDo (SSched (Abs 4) 0 [SRaise 7]);
+              TDo (SSched (Abs 5) 1 [SStop]); TDo (SSched (Abs 30) 2 [])]) in
+  forallb (fun it => calm_pay true (i_pay it)) (queue s) = false /\
+  match advance_to 10 s 10 with
+  | Raised 7 s' => map r_due (pops (log s')) = [4; 3]
+  | _ => False
+  end.
+Proof. vm_compute. split; reflexivity. Qed.
+
+(* C28_advance_to_complete on the state of C28_witness_advance: items 0 (due 3) is
+   pending and due <= 10, item 1 (due 30) is not; ids dequeued: 0 and the nested 2 *)
+Example C28_witness_complete :
+  let s := state_of (run (Cfg Datetime false) 10 (init 0)
+             [TDo (SSched (Abs 3) 0 [SSched (Rel 2) 1 []; SSched (Rel 20) 2 []]); TDo (SSched (Abs 30) 3 [])]) in
+  map (fun it => (i_id it, i_due it)) (queue s) = [(0%nat, 3); (1%nat, 30)] /\
+  match advance_to 10 s 10 with
+  | Finished s' => map r_id (pops (log s')) = [2%nat; 0%nat]
+  | _ => False
+  end.
+Proof. vm_compute. split; reflexivity. Qed.
